@@ -48,17 +48,26 @@ def _name_bytes(H, pfx, n):
 
 
 def build_sampler(H, variant, pfx="s."):
-    s = Sampler()
+    return fill_sampler(H, Sampler(), variant, pfx)
+
+
+def fill_sampler(H, s, variant, pfx="s."):
+    """Give an existing Sampler (fresh or loaded) the symbolic state described by `variant`."""
     rw.sym_controllers(H, s, pfx + "c.")
     rw.sym_options(H, s, pfx + "o.")
     for f, (lo, hi) in RECORD_FIELDS.items():
+        if variant.get("lean") and f in ("max_version", "editor_cursor", "editor_selected_size"):
+            # with the 391-byte record (known finding) these bytes fall into the reader's 128-byte
+            # note-map window, whose trailing zeros are stripped one by one: keep them concrete here
+            setattr(s, f, {"max_version": 7, "editor_cursor": -5, "editor_selected_size": 3}[f])
+            continue
         setattr(s, f, H.int(pfx + f, lo, hi))
     s.instrument_name = _name_bytes(H, pfx + "iname", variant.get("iname", 3))
     full_map = variant.get("full_map", False)
     for i, note in enumerate(s.note_samples):
         # the reader strips trailing zero bytes of the map one by one (one path each): the whole-pipeline
         # cases keep the middle of the map concrete, note_map_roundtrip covers all 119 entries
-        if full_map or i < 6 or i == 118:
+        if full_map or i < 6 or (i == 118 and not variant.get("lean")):
             s.note_samples[note] = H.int(f"{pfx}map{i}", 0, 255)
         else:
             s.note_samples[note] = (i * 7) % 251 + 1
@@ -72,12 +81,14 @@ def build_sampler(H, variant, pfx="s."):
         env.enable = H.bool(f"{pfx}{name}.enable")
         env.sustain = H.bool(f"{pfx}{name}.sustain")
         env.loop = H.bool(f"{pfx}{name}.loop")
+    if "samples" in variant:
+        s.samples = [None] * 128
     for slot, (fmt, ch, loop, nframes) in variant.get("samples", {}).items():
         smp = Sampler.Sample()
         smp.format, smp.channels, smp.loop_type = fmt, ch, loop
         # the writer branches on this flag: symbolic for the first listed slot, enumerated for the others
         first = slot == min(variant["samples"])
-        smp.loop_sustain = H.bool(f"{pfx}smp{slot}.loop_sustain") if first else (slot % 2 == 1)
+        smp.loop_sustain = H.bool(f"{pfx}smp{slot}.loop_sustain") if (first and not variant.get("lean")) else (slot % 2 == 1)
         for f, (a, b) in SAMPLE_FIELDS.items():
             setattr(smp, f, H.int(f"{pfx}smp{slot}.{f}", a, b))
         smp.name = _name_bytes(H, f"{pfx}smp{slot}.name", 4)
@@ -87,6 +98,8 @@ def build_sampler(H, variant, pfx="s."):
         amp = Amplifier()
         rw.sym_controllers(H, amp, pfx + "fx.")
         s.effect = Synth(amp)
+    elif "effect" in variant:
+        s.effect = None
     return s
 
 
@@ -133,8 +146,8 @@ OFF, FWD, PP = Sampler.LoopType.off, Sampler.LoopType.forward, Sampler.LoopType.
 
 VARIANTS = {
     "no_samples": {},
-    "three_slots": {"samples": {0: (F8, MONO, OFF, 3), 5: (F16, STEREO, FWD, 2), 127: (F32, STEREO, PP, 1)}, "effect": True},
-    "formats": {"samples": {1: (F8, STEREO, PP, 2), 2: (F16, MONO, OFF, 2), 3: (F32, MONO, FWD, 1), 126: (F8, MONO, OFF, 0)}},
+    "three_slots": {"samples": {0: (F8, MONO, OFF, 3), 5: (F16, STEREO, FWD, 2), 127: (F32, STEREO, PP, 1)}, "effect": True, "lean": True},
+    "formats": {"samples": {1: (F8, STEREO, PP, 2), 2: (F16, MONO, OFF, 2), 3: (F32, MONO, FWD, 1), 126: (F8, MONO, OFF, 0)}, "lean": True},
     "envelope_counts": {"points": {"volume": 0, "panning": 12, "pitch": 1, "effect1": 13, "effect2": 0}, "iname": 22},
     "empty_volume_fine_panning": {"points": {"volume": 0, "panning": 4}, "iname": 0},
 }
